@@ -53,7 +53,8 @@ pub fn tokio_to_unixaddr(src: &tokio::net::unix::SocketAddr) -> UnixAddr {
     if let Some(path) = src.as_pathname() {
         UnixAddr::new(path).unwrap()
     } else {
-        unimplemented!()
+        // Clients of a unix socket normally do not bind their end: they are unnamed.
+        UnixAddr::new_unnamed()
     }
 }
 
